@@ -31,8 +31,9 @@ def tla_set(items):
     return '{' + ', '.join(json.dumps(str(x)) for x in sorted(items)) + '}'
 
 
-def _java(args, env=None, cwd=SPECS, timeout=3600, heap='2g'):
-    cmd = ['java', '-XX:+UseParallelGC', '-Xmx' + heap, '-DTLA-Library=' + SPECS, '-cp', JAR_CP, 'tlc2.TLC'] + args
+def _java(args, env=None, cwd=SPECS, timeout=3600, heap='2g', small=False):
+    gc = ['-XX:+UseSerialGC', '-XX:ActiveProcessorCount=2', '-XX:TieredStopAtLevel=1'] if small else ['-XX:+UseParallelGC']
+    cmd = ['java'] + gc + ['-Xmx' + heap, '-DTLA-Library=' + SPECS, '-cp', JAR_CP, 'tlc2.TLC'] + args
     full_env = dict(os.environ)
     if env:
         full_env.update(env)
@@ -64,7 +65,7 @@ def _run_shard(spec, shard_dir, traces, enforced, known, diag, extra_consts):
     meta = os.path.join(shard_dir, 'meta')
     shutil.rmtree(meta, ignore_errors=True)
     rc, out = _java(['-workers', '1', '-noGenerateSpecTE', '-metadir', meta, '-config', cfg,
-                     os.path.join(SPECS, spec + '.tla')], env={'TRACE_FILE': tfile})
+                     os.path.join(SPECS, spec + '.tla')], env={'TRACE_FILE': tfile}, small=True)
     shutil.rmtree(meta, ignore_errors=True)
     done = {}
     for m in _DONE.finditer(out):
@@ -86,7 +87,7 @@ def _run_shard(spec, shard_dir, traces, enforced, known, diag, extra_consts):
     return done, reached, fails, states, trans
 
 
-def validate(spec, traces, enforced, known=(), name='run', jvms=14, extra_consts=None, diagnose=True):
+def validate(spec, traces, enforced, known=(), name='run', jvms=8, extra_consts=None, diagnose=True):
     ''' :param traces: list of traces (each a list of JSON-able event dicts)
     :return: dict(results=[per trace dict], states, transitions, wall_s)
     '''
@@ -97,7 +98,8 @@ def validate(spec, traces, enforced, known=(), name='run', jvms=14, extra_consts
     n = len(traces)
     if n == 0:
         return {'results': [], 'states': 0, 'transitions': 0, 'wall_s': 0.0}
-    nsh = max(1, min(jvms, (n + 19) // 20))
+    total_events = sum(len(t) for t in traces)
+    nsh = max(1, min(jvms, n, total_events // 12000 + 1))
     shards = [[] for _ in range(nsh)]
     index = [[] for _ in range(nsh)]
     # balance by trace length
